@@ -462,7 +462,7 @@ def _compose_item(idx):
                     )
                 )
             else:
-                out.append(("undecided", ck, [str(x) for x in (m.why[:1] + ([note] if note else []))]))
+                out.append(("undecided", ck, [str(x) for x in (m.why[:6] + ([note] if note else []))]))
     return out, evals
 
 
